@@ -135,6 +135,15 @@ class Sim:
         r = self.r
         self.latency = max(getattr(self, "latency", 0), net.latency)
         dst = self.other(ep)
+        fate_fn = getattr(self, "fate_fn", None)
+        if fate_fn is not None:
+            delays = fate_fn(self, ep, idx, f)          # None: leave it to `net`; []: lost; [d1, ...]: copies with these delays
+            if delays is not None:
+                f["fate"] = "drop" if not delays else ("ok" if len(delays) == 1 else "dup%d" % len(delays))
+                for dl in delays:
+                    self.order += 1
+                    self.inflight.append((self.time + dl, self.order, ep, idx, dst, None))
+                return
         if net.loss and r.below(1000) < net.loss:
             f["fate"] = "drop"; return
         copies = 1
